@@ -371,6 +371,55 @@ pub fn child_mle(a: &[String]) -> i32 {
     0
 }
 
+/// length-mismatch clause in a build WITHOUT debug assertions (run by the tool leg from the `nodebug` profile): every counting
+/// estimator is called on sketches of unequal lengths, in both argument orders; a returned number is printed as accepted.
+pub fn child_mismatch(a: &[String]) -> i32 {
+    quiet_panics();
+    let seed: u64 = a.first().and_then(|s| s.parse().ok()).unwrap_or(1);
+    let mut rng = rng_from(mix(&[seed, 0xC14]));
+    let mut ncalls = 0u64;
+    let mut naccepted = 0u64;
+    macro_rules! probe {
+        ($name:expr, $n1:expr, $n2:expr, $e:expr) => {{
+            ncalls += 1;
+            let r: Result<Option<f64>, String> = catch(std::panic::AssertUnwindSafe(|| $e));
+            if let Ok(Some(v)) = r {
+                naccepted += 1;
+                println!("C14MISMATCH-ACCEPTED {} lengths {} and {} returned {:e}", $name, $n1, $n2, v);
+            }
+        }};
+    }
+    for _ in 0..200 {
+        let n1 = rng.random_range(1..300usize);
+        let n2 = if rng.random_range(0..2) == 0 { n1 + rng.random_range(1..5usize) } else { n1 + rng.random_range(5..200usize) };
+        let long: Vec<u64> = (0..n2).map(|_| rng.next_u64() | 1).collect();
+        let short: Vec<u64> = long[..n1].to_vec();
+        for (x, y, nx, ny) in [(&short, &long, n1, n2), (&long, &short, n2, n1)] {
+            probe!("jaccard::compute_probminhash_jaccard<u64>", nx, ny, Some(jaccard::compute_probminhash_jaccard(x, y)));
+            probe!("jaccard::get_jaccard_index_estimate<u64>", nx, ny, jaccard::get_jaccard_index_estimate(x, y).ok());
+            probe!("superminhasher2::compute_superminhash_jaccard<u64>", nx, ny, superminhasher2::compute_superminhash_jaccard(x, y).ok().map(|v| v as f64));
+            probe!("superminhasher2::get_jaccard_index_estimate<u64>", nx, ny, superminhasher2::get_jaccard_index_estimate(x, y).ok().map(|v| v as f64));
+        }
+        let longf: Vec<f64> = (0..n2).map(|k| k as f64 + rng.random::<f64>()).collect();
+        let shortf: Vec<f64> = longf[..n1].to_vec();
+        for (x, y, nx, ny) in [(&shortf, &longf, n1, n2), (&longf, &shortf, n2, n1)] {
+            probe!("superminhasher::compute_superminhash_jaccard<f64>", nx, ny, superminhasher::compute_superminhash_jaccard(x, y).ok());
+            probe!("superminhasher::get_jaccard_index_estimate<f64>", nx, ny, superminhasher::get_jaccard_index_estimate(x, y).ok());
+            probe!("jaccard::get_jaccard_index_estimate<f64>", nx, ny, jaccard::get_jaccard_index_estimate(x, y).ok());
+        }
+        // methods on the sketchers
+        let items = fresh_ids(&mut rng, 5, 0);
+        let mut s1 = SuperMinHash::<f64, u64, FnvHasher>::new(n1, Default::default());
+        s1.sketch_slice(&items).unwrap();
+        probe!("SuperMinHash::get_jaccard_index_estimate", n1, n2, s1.get_jaccard_index_estimate(&longf).ok());
+        let mut s2 = SuperMinHash2::<u64, u64, FnvHasher>::new(n2, Default::default());
+        s2.sketch_slice(&items).unwrap();
+        probe!("SuperMinHash2::get_jaccard_index_estimate", n2, n1, s2.get_jaccard_index_estimate(&short).ok().map(|v| v as f64));
+    }
+    println!("C14MISMATCHDONE calls={} accepted={} debug_assertions={}", ncalls, naccepted, cfg!(debug_assertions));
+    0
+}
+
 pub fn run(rep: &mut Report) {
     quiet_panics();
     rep.rule = "counting estimators (jaccard::compute_probminhash_jaccard, jaccard::get_jaccard_index_estimate, SuperMinHash::get_jaccard_index_estimate, superminhasher::{compute_superminhash_jaccard,get_jaccard_index_estimate}, SuperMinHash2::get_jaccard_index_estimate, superminhasher2::{compute_superminhash_jaccard,get_jaccard_index_estimate}): pairs of sketches of element types u64/String/u16/u32/f64/f32 and real sketcher states, lengths 1..5000, planted agreement patterns (none, all, first only, last only, all but first/last, random), half of the vectors containing values with a special role in the crate (0, MAX, 1, the sketch length); oracle = agreements/length (bit-exact f64, nearest f32 for f32 results), both argument orders, identical => 1, unequal lengths => Err or panic (never a number). MLE: get_mle in child processes on sketch pairs from same-parameter sketchers (19 shapes: nested, very unequal, identical, five disjoint shapes (no equal register at moderate m), one common item, ordinary, empty; b in {1.001,1.1,1.5,2}; m in {16,64,128,256,512,4096}; both argument orders): must return Some(j) with j finite in [0,1]; a panic, None, NaN or out-of-range value is a violation. Distinct = cases; non-trivial: length >= 2 or any MLE case".into();
